@@ -201,6 +201,7 @@ func checkC11(p *Prog, res *Result, tier string) {
 	res.rule("C11-R15", "the in-process engine's ttl timer removes a key only after comparing what it holds with the value the ttl was set for (what the engines with native ttl do when a key is overwritten)", 1)
 	res.rule("C11-R16", "the bound test of every adapter's iterator excludes the end key and admits exactly one side of it, for every value of the direction flag (tabulated over the three outcomes of bytes.Compare and the iterator's boolean fields)", 5)
 	res.rule("C11-R17", "the TiKV adapter starts a backward iteration at the immediate successor of start (start followed by one zero byte): the engine's reverse iterator excludes its seek key, and any larger successor admits longer keys that begin with start", 1)
+	res.rule("C11-R18", "the in-process engine decides 'no such key' by the nil result of its lookup, never by the length of the value (a stored value may be empty; the other engines decide by their not-found error)", 3)
 	res.rule("C11-R9", "deleting a key that is not there is not an error in any adapter: Del never reports the ErrKeyNotFound sentinel (the compaction deletes a record it has already deleted, and treats any error as a failed delete)", 3)
 	res.rule("C11-R10", "an adapter that advertises native TTL hands the ttl of every write form (Put, PutIfNotExist, CAS) to the engine (or records it with the staged operation)", 6)
 	res.rule("C11-R8", "the in-process engine's iterator yields snapshot copies: live skip-list elements are dereferenced only under the store lock (C19-R3)", 2)
@@ -272,6 +273,61 @@ func checkC11(p *Prog, res *Result, tier string) {
 					res.ok("C11-R1", c3, p.pos(f.Pos()), "no store-level call in the staged operation")
 				}
 			}
+			if op.name != "PutIfNotExist" && ap != "pkg/storage/memkv" {
+				// an operation on a key that must exist does not write where the engine's read said "no such key"
+				c4 := fmt.Sprintf("%s.%s: no engine write where the read reported not-found", short, op.name)
+				var hit ssa.Instruction
+				nEdges := 0
+				for _, g := range withAnon(f) {
+					for _, b := range g.Blocks {
+						iff := ifOf(b)
+						if iff == nil {
+							continue
+						}
+						for si := 0; si < 2; si++ {
+							isNF := false
+							for _, cf := range expandFact(edgeFact(edge{b, si}), 0) {
+								if cf.Call == nil || !cf.Want {
+									continue
+								}
+								sc := cf.Call.Common().StaticCallee()
+								if sc == nil {
+									continue
+								}
+								if sc.Name() == "IsErrNotFound" {
+									isNF = true
+								}
+								if sc.Name() == "Is" && len(cf.Call.Common().Args) == 2 {
+									if ld, ok := resolve(cf.Call.Common().Args[1]).(*ssa.UnOp); ok && ld.Op == token.MUL {
+										if gl, ok := ld.X.(*ssa.Global); ok && strings.Contains(gl.Name(), "NotFound") {
+											isNF = true
+										}
+									}
+								}
+							}
+							if !isNF {
+								continue
+							}
+							nEdges++
+							w, _ := searchFrom(b.Succs[si], 0, searchOpts{bad: func(i ssa.Instruction) bool {
+								c, ok := i.(ssa.CallInstruction)
+								return ok && isEngineCall(c, "Set", "SetEntry", "Delete")
+							}})
+							if w != nil {
+								hit = w
+							}
+						}
+					}
+				}
+				switch {
+				case hit != nil:
+					res.bad("C11-R1", c4, p.pos(hit.Pos()), op.name+" reaches the engine write on the path where its read of the key reported 'not found': the condition (the key holds what the caller saw) is false there, yet the operation reports success and the rest of the batch takes effect - the sibling adapters report a failed condition")
+				case nEdges == 0:
+					res.ok("C11-R1", c4, p.pos(f.Pos()), "the operation does not single out the not-found error of its read (it is returned like any other error)")
+				default:
+					res.ok("C11-R1", c4, p.pos(f.Pos()), "no engine write after a not-found read")
+				}
+			}
 			if op.name != "PutIfNotExist" {
 				c2 := fmt.Sprintf("%s.%s: compares before it writes", short, op.name)
 				if ok, why := p.mismatchConflict(f); ok {
@@ -325,6 +381,7 @@ func checkC11(p *Prog, res *Result, tier string) {
 	checkExpiryIsCompareAndDelete(p, r, res, "C11-R15")
 	checkIteratorBoundTest(p, res, "C11-R16")
 	checkBackwardSeekKey(p, r, res, "C11-R17")
+	checkAbsentIsNil(p, res, "C11-R18")
 	checkAdaptersReportCancellation(p, res, "C11-R11")
 	checkAdapterErrorPreservation(p, r, res, "C11-R11")
 	checkNativeTTLHonoured(p, r, res, "C11-R10")
@@ -1515,6 +1572,7 @@ func checkC12(p *Prog, res *Result, tier string) {
 	res.rule("C12-R0", "C11-R1 / R2 / R5 / R6 / R7 / R9 / R12 / R13 (sibling agreement of the adapters and the wrapper; batch begin/commit discipline, which only the in-process engine turns into a lock)", 30)
 	res.rule("C12-R6", "the scan-based expiry, which stands in for native TTL on the one engine that has none, removes an event record only under an age guard on that record's own revision, the index record by compare-and-delete (C17-R2/R3)", 4)
 	res.rule("C12-R7", "the snapshot timestamp handed to an engine iterator (an operand only TiKV reads) is the constant 0 or a value of GetTimestampOracle, never a revision", 2)
+	res.rule("C12-R8", "the in-process engine's expiry timers each see their own record: no function literal that runs later captures a per-loop variable (C19-R10)", 1)
 	res.rule("C12-R5", "bytes handed to an engine write are not a window into a reusable buffer: the in-process engine keeps the slice it is given, the others copy it", 10)
 	res.rule("C12-R4", "results do not depend on how the engine partitions the key space, which only TiKV does (C13-R5, C13-R9)", 2)
 	res.rule("C12-R1", "the backend's write paths dispatch only on the error classes of the adapter table", 5)
@@ -1523,7 +1581,7 @@ func checkC12(p *Prog, res *Result, tier string) {
 
 	sub := p.subResult("C11", tier)
 	for _, o := range sub.Obls {
-		if o.Rule == "C11-R1" || o.Rule == "C11-R2" || o.Rule == "C11-R5" || o.Rule == "C11-R6" || o.Rule == "C11-R7" || o.Rule == "C11-R9" || o.Rule == "C11-R12" || o.Rule == "C11-R13" || o.Rule == "C11-R14" || o.Rule == "C11-R16" {
+		if o.Rule == "C11-R1" || o.Rule == "C11-R2" || o.Rule == "C11-R5" || o.Rule == "C11-R6" || o.Rule == "C11-R7" || o.Rule == "C11-R9" || o.Rule == "C11-R12" || o.Rule == "C11-R13" || o.Rule == "C11-R14" || o.Rule == "C11-R16" || o.Rule == "C11-R18" {
 			res.add("C12-R0", o.Rule+" "+o.Construct, o.Status, o.Pos, o.Detail)
 		}
 	}
@@ -1555,6 +1613,25 @@ func checkC12(p *Prog, res *Result, tier string) {
 	for _, o := range sub19.Obls {
 		if strings.Contains(o.Construct, "pkg/storage/memkv") {
 			res.add("C12-R3", o.Rule+" "+o.Construct, o.Status, o.Pos, o.Detail)
+		}
+	}
+
+	// R0: an overlap of two conditional batches ends as "condition failed" on every engine: the TiKV adapter maps the
+	// engine's commit-time write conflict to ErrCASFailed (C09-R4)
+	{
+		sub9 := newResult("C09")
+		checkCommitClassification(p, r, sub9)
+		for _, o := range sub9.Obls {
+			res.add("C12-R0", o.Rule+" "+o.Construct, o.Status, o.Pos, o.Detail)
+		}
+	}
+	// R8: the in-process engine expires each record on its own timer, as the engines with native TTL do: the timer's
+	// function does not share a loop variable with the timers of the other records of the batch (C19-R10)
+	{
+		sub := newResult("C19")
+		checkLoopVarCapture(p, sub, "C19-R10")
+		for _, o := range sub.Obls {
+			res.add("C12-R8", o.Rule+" "+o.Construct, o.Status, o.Pos, o.Detail)
 		}
 	}
 
